@@ -699,6 +699,26 @@ def check(repo):
     r5.require(n_dummy >= 2, schemes[0].method("_Enc"), "dummy keyword sites floor",
                "expected the database padding of CT14 and ANSS16 (2 sites), found %d" % n_dummy)
 
+    # ------------------------------------------------------------------ R2.6 the answer depends only on (index, token)
+    r6 = Rule("R2.6", "search keeps no state between calls: an absent keyword cannot be answered from an earlier search")
+    rules.append(r6)
+    from .c07 import Analyzer
+    an = Analyzer(repo)
+    for s in schemes:
+        for mname in ("_Search", "Search"):
+            fi = s.cls.methods.get(mname)
+            if fi is None:
+                continue
+            hidden = [x for x in an.sites(fi) if x[0] == ("self",)]
+            memo = [d for d in fi.decorators if any(k in d for k in ("cache", "memo"))]
+            if hidden or memo:
+                node = hidden[0][2] if hidden else fi.node
+                r6.fail_fn(fi, node, "search keeps state on the scheme object",
+                           "%s.%s stores into the scheme object%s: a later search (e.g. for an absent keyword, or against another index) can be answered from it" % (
+                               s.name, mname, " / is memoised" if memo else ""))
+            else:
+                r6.ok({"scheme": s.name, "method": mname})
+
     r1.require(n_primary >= 10, schemes[0].method("_Search"), "primary lookups floor",
                "only %d token-indexed dictionary lookups found (expected >= 10, at least one per scheme)" % n_primary)
     return rules
